@@ -22,6 +22,10 @@ CHECKS = {
    text='Proof of the lossless-lexing postcondition of nextToken/NextToken for every buffer and every start offset: trivia and token tile [old pos, new pos) with no gap or overlap; Raw, Space and every comment are the slices of the input at their recorded Pos/End; Space and inter-comment space contain whitespace only; comments are non-empty and closed (or the error is reported); <eof> only at len(input) with empty range; every other token is non-empty; progress on every call. Loop invariants carry the tiling through any number of comments; each consume* helper is verified against its own contract (bounds, advance, termination).',
    note='Stream-level statement (concatenation of all tokens reproduces the input) is the telescoping of the per-call tiling because each call starts at the previous token\'s End (that equality is an invariant wherever streams are consumed: SplitRawStatements loop, checked there). Trusted: utf8.DecodeRuneInString, unicode.IsSpace (ASCII facts), strconv.ParseUint, utf8.EncodeRune, fmt.Sprintf. spaceOnly constrains ASCII bytes. After a lexical error nothing is claimed about the lexer state.',
    ref='§4.C13'),
+ 'C14': dict(
+   text='Proof, per function and for all inputs, of the rows of the GoogleSQL lexical table written as spec functions in the contract files (from the lexical documentation, not from lexer.go): character classes; every punctuation/operator token by maximal munch on its first two bytes; literal prefix matrix (quote, r, b, br, rb in any case; nothing else is a literal prefix); @param / @@ / @; dot followed by digit vs. field dot and the dot-identifier rule; identifier runs are maximal, keywords are exactly the upper-cased members of token.Keywords; illegal first bytes are rejected; the escape table of quoted literals as a per-iteration step contract (plain byte, raw escape pair, one-character escapes with their decoded byte, \\xHH and \\ooo with the decoded value, \\u/\\U only where unicode escapes are allowed and with 4/8 hex digits, every other escape rejected, bare newline only in triple-quoted literals, closing delimiter only at an escape boundary); the number automaton as one transition per iteration plus maximal munch and the "glued identifier" rejection; the four comment openers and their terminators.',
+   note='Not proved: the whole-input statement "rejected iff the specification rejects" (needs a recursive reference lexer and induction over tokens); decoded value of \\u/\\U escapes and the surrogate / >10FFFF rejection (strconv.ParseUint and utf8.EncodeRune are trusted with range-only contracts for 4/8 digit input); keyword recognition is proved one way (a keyword kind is the upper-cased spelling of the run and is in token.Keywords), the converse (an identifier is never a keyword spelling) is not. The spec functions (about 40 lines of //@ spec) are the reviewable trusted base. Trusted: token.KeywordsMap == set(token.Keywords literal).',
+   ref='§4.C14'),
  'C20': dict(
    text='Proof that File.init builds exactly the table of line starts (lines[0]=0, strictly increasing, every later entry is one past a newline byte, no newline strictly inside a line, sentinel len+1) from the contract of strings.Split; that ResolvePos returns the unique line with lines[line] <= pos < lines[line+1] and column = pos - lines[line] for every 0 <= pos <= len; that File.Position never indexes or slices out of range for 0 <= pos <= end <= len (or an invalid pos/end) and reports those lines/columns.',
    note='"line = number of newline bytes before pos" is proved through the characterisation of the line table (line starts are exactly the positions after newlines, in order); the count itself is not given to the solver. Excerpt text and the "file:line:col" message prefix go through fmt.Sprintf/Fprintf, which are trusted and opaque: that Position.String passes Line+1 and Column+1 is not proved. Trusted: strings.Split contract (parts are the maximal newline-free runs in order), strings.Repeat (requires count >= 0, checked), fmt.*, bytes.Buffer.String.',
